@@ -22,7 +22,32 @@ The PHREEQC-3 manual PDF in /repo/phreeqc3-doc is empty in this tree; the docume
 
 Observables: USER_PUNCH full doubles GAS(i), GAS_P, GAS_VM, PR_P(i), PR_PHI(i), SI(i), TK, SYS(element), EQUI(i) and the
 SELECTED_OUTPUT -gases columns (pressure, total mol, volume).  For ideal phases PR_P is not used (it is a
-Peng-Robinson read-out); partial pressures are x_i * P there.
+Peng-Robinson read-out); partial pressures are 10^SI there (fugacity = pressure).
+
+Oracle, clause by clause (S = sentence of the property statement)
+ S1 "P, V, T, moles satisfy the EOS in use (ideal, or PR outside the two-phase region; rel 1e-4)":
+    ideal: P V = n R T; PR: P_reported = P_PR(V/n, T, x) evaluated by vp/eos.py, asserted when the state (V/n, T, x) is outside
+    the two-phase region of the one-fluid cubic: one real root, or three real roots with V/n the vapour root and that root
+    stable by more than 2 % in fugacity (Maxwell criterion).  Everything else (inside the spinodal, liquid/middle branch,
+    metastable vapour, within rounding of a double root) is skipped and counted.  GAS_VM = V/n; -gases columns = BASIC values.
+ S2 "partial pressures are mole-fraction shares of the total and sum to it": PR_P(i) = x_i P (1e-6 P), sum PR_P = P (1e-12).
+ S3 "fugacity coefficient (inside 0.01..85) matches the EOS (1e-6)": PR_PHI(i) vs the PR mixture expression at the reported P,
+    the composition PR_P(i)/P and the root of the cubic next to V/n; always 0.0099 <= PR_PHI <= 85.5; ideal: PR_PHI = 1.
+ S4 "fugacity equals ten to its SI": (a) x_i = share of 10^SI_i/phi_i (1e-6), (b) sum_i 10^SI_i/phi_i = P.
+ S5 "a fixed-pressure phase exists only if the sum of equilibrium partial pressures reaches P": phase with gas => sum = P (1e-6);
+    (DESIGN's converse) no gas => sum <= P.
+ S6 "same for gases as EQUILIBRIUM_PHASES": PR_P = 10^target, PR_PHI = pure-gas phi_EOS(P, T), SI = log10(phi P) while present,
+    SI <= log10(phi P) when exhausted.
+ Derived from S1 (quantifier: "initial partial pressures"): the moles a new GAS_PHASE adds to the system (element totals)
+    equal V / V_m,EOS(sum p_i, T_gas, x = p_i / sum p_i).
+ Domain: rows whose reported total pressure is outside 0.01..1000 atm are counted and skipped (quantifier of the property).
+
+Solver noise (what the tolerances absorb besides the property's numbers): the engine converges on absolute mass-balance
+residuals and reports quantities of two consecutive iterates (pressure/phi from the EOS call at the start of the last
+iteration, moles and activities from its end), hence MOLE_SLACK_KGW on comparisons of moles with the reported total pressure.
+
+Findings on the unchanged tree that the oracle recognises, counts and does not alarm on (replays/C19/known/*.json, see the
+comments at the two places): stale reported total pressure of fixed-volume PR phases; doubled molar volume inside the spinodal.
 """
 import math, os
 from hypothesis import strategies as st
@@ -31,26 +56,33 @@ from ..core import Violation, Discard
 
 ID = "C19"
 LEVEL = "exploration"
-RULE = ("Hypothesis-generated batch reactions of a generated solution (phreeqc.dat / pitzer.dat / wateq4f.dat, 0-200 C) with "
-        "(a) a GAS_PHASE of 1-5 database gases (redox-coupled and uncoupled, with critical constants = Peng-Robinson, without = "
-        "ideal; optional input-defined gases with generated or absent critical constants; optional user GAS_BINARY_PARAMETERS), "
-        "fixed pressure 0.01-1000 atm or fixed volume 0.01-20 L, initial partial pressures 0 / 1e-3-500 atm or -equilibrate, "
-        "optional minerals / REACTION steps / REACTION_TEMPERATURE, or (b) 1-3 gases as EQUILIBRIUM_PHASES with target "
-        "log10 P in -3..3.  Oracle (vp/eos.py, independent Peng-Robinson from database text): partial pressures = x_i P and sum "
-        "to P; PV=nRT or PR cubic in pressure-explicit form outside the 3-real-root region; phi_i vs PR mixture expression "
-        "inside the 0.01..85 clamp; 10^SI_i = phi_i p_i; fixed-pressure existence relation; initial moles from the EOS via "
-        "element totals; same for EQUILIBRIUM_PHASES gases.  Non-trivial = a gas exists and (PR with |ln phi|>1e-3 for some "
-        "component, or >= 2 gases with moles > 0); distinct by SHA-256 of the case")
+RULE = ("Hypothesis-generated batch reactions of a generated solution (phreeqc.dat / pitzer.dat / core10.dat: gases with critical "
+        "constants = Peng-Robinson; wateq4f.dat and input-defined gases without = ideal; 0-200 C in five equally likely ranges) with "
+        "(a) a GAS_PHASE of 1-5 gases (families: any / redox-inert analogues / redox-coupled / condensable far below Tc / water or ammonia "
+        "in a dense gas; optional input-defined gases with generated critical constants; optional user GAS_BINARY_PARAMETERS), "
+        "fixed pressure or fixed volume, total pressure log-uniform over the decades 0.01-1000 atm, initial partial pressures as integer-"
+        "weighted shares (some zero, under-filled, or an empty phase over an acid carbonate solution) or -equilibrate, volume 0.01-20 L "
+        "(<= ~20 mol gas), optional minerals / REACTION steps / REACTION_TEMPERATURE sequences of 1-3 temperatures, or (b) 1-3 gases as "
+        "EQUILIBRIUM_PHASES with target log10 P in -2..3.  KNOBS -convergence_tolerance 1e-12 in every input.  Oracle (vp/eos.py, "
+        "independent Peng-Robinson from database text): see module docstring S1-S6.  Non-trivial = a gas exists and (PR with "
+        "|ln phi| > 1e-3 for some checked component, or >= 2 gases with moles > 0); distinct by SHA-256 of the case")
 ASSUMPTIONS = ["Peng-Robinson (1976) equations and van der Waals one-fluid mixing as quoted in the database/PHREEQC documentation",
                "R = 0.0820597 L atm/(mol K) is the documented model constant (DESIGN section 4 rule 6)",
                "k_ij = GAS_BINARY_PARAMETERS text, else the water-gas values documented in RELEASE.TXT / phreeqc.dat, else 0",
                "EOS in use = Peng-Robinson iff -T_c and -P_c are defined for the components (mixed definitions are an engine error, excluded)",
-               "states whose cubic has three real roots at the reported composition are outside the property (skipped and counted)",
-               "USER_PUNCH read-outs GAS, GAS_P, GAS_VM, PR_P, PR_PHI, SI, TK, SYS, EQUI report the converged state"]
+               "outside the two-phase region = single real root, or stable vapour root (one-fluid fugacity of the vapour root lower than that of "
+               "the liquid root by > 2 %); all other states are outside the property (skipped and counted)",
+               "reported pressures outside 0.01..1000 atm are outside the property's quantifier (skipped and counted)",
+               "inputs set KNOBS -convergence_tolerance 1e-12 (DESIGN section 4 rule 2); gas moles carry an absolute solver noise of up to "
+               "5e-7 mol per kg water when compared with the reported total pressure",
+               "USER_PUNCH read-outs GAS, GAS_P, GAS_VM, PR_P, PR_PHI, SI, TK, SYS, EQUI report the state the engine ended with",
+               "two recorded findings (stale total pressure of fixed-volume PR phases; doubled molar volume inside the spinodal) are "
+               "recognised by signature, counted (classes stale_total_pressure / inside_spinodal) and not alarmed on"]
 TECHNIQUE = "property-based testing (Hypothesis) against an independent reference model (Peng-Robinson / ideal-gas EOS re-evaluated from database text)"
 LEVEL_TEXT = ("Exploration: thousands of generated gas-solution equilibria per run; every reported gas state is re-evaluated with an "
-              "independent equation-of-state implementation (cubic, fugacity coefficients, fugacity = 10^SI, partial-pressure "
-              "shares, fixed-pressure existence, EOS-based initial moles).  3-root (two-phase) states are skipped and counted.")
+              "independent equation-of-state implementation (pressure-explicit cubic, fugacity coefficients, fugacity = 10^SI shares and sum, "
+              "partial-pressure shares, fixed-pressure existence, EOS-based initial moles, gases as EQUILIBRIUM_PHASES).  States inside the "
+              "two-phase region of the cubic and pressures outside 0.01-1000 atm are skipped and counted.  No proof: unexplored inputs remain.")
 FLOORS = {"quick": 1000, "thorough": 10000}
 SHARDS = {"quick": 8, "thorough": 16}
 BUDGET = {"quick": 1200, "thorough": 12000, "replay": 1}      # cases per shard
@@ -65,6 +97,7 @@ TOL_EOS = 1e-4        # equation of state, relative (property)
 TOL_PHI = 1e-6        # fugacity coefficient (property)
 TOL_FUG = 1e-6        # 10^SI = phi p, relative
 TOL_EXIST = 1e-6      # fixed-pressure existence: sum of equilibrium partial pressures vs P, relative
+ABS_EXIST = 1e-6      # atm; an absent phase may hold a sum that exceeds P by a numerical threshold of the solver
 MOLE_FLOOR = 1e-25    # components with fewer moles than this are absent (the engine's own zero is MIN_TOTAL = 1e-30 mol)
 MOLE_SLACK_KGW = 5e-7  # absolute slack (mol per kg of water, at least one kg) on the total moles of gas wherever moles are compared with the
                        # reported total pressure: the engine reports the pressure of its last EOS evaluation, the moles of the step after
@@ -139,7 +172,7 @@ def pressure(draw, lo_dec=-2, hi_dec=2):
 @st.composite
 def case_strategy(draw):
     kind = draw(st.sampled_from(["gp", "gp", "gp", "gp", "equi"]))
-    db = draw(st.sampled_from(["phreeqc.dat", "phreeqc.dat", "phreeqc.dat", "phreeqc.dat", "pitzer.dat", "wateq4f.dat", "core10.dat"]))
+    db = draw(st.sampled_from(["phreeqc.dat", "phreeqc.dat", "phreeqc.dat", "pitzer.dat", "pitzer.dat", "wateq4f.dat", "core10.dat"]))
     tc = draw(temperature())
     sol = draw(cg.simple_solution(1, elements=SOL_ELEMENTS, max_el=4, temp=False, charge=False))
     sol["temp"] = tc
@@ -174,7 +207,7 @@ def case_strategy(draw):
         taken = {CUSTOM[g["tpl"]][0] for g in custom}
         same = {"CO2 = CO2": "CO2(g)", "Mtg = Mtg": "Mtg(g)", "Ntg = Ntg": "Ntg(g)", "Oxg = Oxg": "Oxg(g)", "Hdg = Hdg": "Hdg(g)"}
         pool = [g for g in pool if g not in {same[t] for t in taken}]
-        family = draw(st.sampled_from(["any", "inert", "inert", "redox", "condensable"]))
+        family = draw(st.sampled_from(["any", "inert", "inert", "redox", "condensable", "wet_dense"]))
         if family == "inert":
             pool2 = [g for g in pool if g in ("CO2(g)", "H2O(g)", "Mtg(g)", "Ntg(g)", "Oxg(g)", "Hdg(g)", "H2Sg(g)")]
         elif family == "redox":
@@ -182,18 +215,30 @@ def case_strategy(draw):
         elif family == "condensable":
             # gases far below their critical temperature: the cubic has three real roots at gas-like states
             pool2 = [g for g in pool if g in ("H2O(g)", "NH3(g)", "H2S(g)", "H2Sg(g)", "CO2(g)")]
+        elif family == "wet_dense":
+            # water vapour / ammonia as a minor component of a dense gas: fugacity coefficients far from one
+            pool2 = [g for g in pool if g in ("CO2(g)", "CH4(g)", "Mtg(g)", "N2(g)", "Ntg(g)", "H2S(g)", "H2Sg(g)")]
         else:
             pool2 = pool
         pool2 = pool2 or pool
         names = draw(st.lists(st.sampled_from(pool2), min_size=0 if custom else 1, max_size=5 - len(custom), unique=True))
+        if family == "wet_dense":
+            names = names[:2] + [g for g in ("H2O(g)", "NH3(g)") if g in pool and draw(st.booleans())]
+            if not any(g in names for g in ("H2O(g)", "NH3(g)")):
+                names.append("H2O(g)")
         names = [g["name"] for g in custom] + names
     typ = draw(st.sampled_from(["P", "V"]))
     gp = {"type": typ}
     gp["temp"] = tc if draw(st.integers(0, 3)) else draw(temperature())
     ptot = draw(st.one_of(pressure(-2, 2), pressure(-2, 2), st.sampled_from([1.0, 10.0, 100.0])))
-    rtemp = draw(temperature()) if draw(st.integers(0, 5)) == 0 else None
+    if custom_mode != "ideal" and family == "wet_dense":
+        ptot = float("%.4g" % (30.0 * 10.0 ** (draw(st.integers(0, 1300)) / 1000.0)))      # 30 .. 600 atm
+    # reaction temperatures: none, one, or a sequence (one batch-reaction step each; the engine keeps EOS data between steps)
+    rtemp = None
+    if draw(st.integers(0, 4)) == 0:
+        rtemp = [draw(temperature()) for _ in range(draw(st.sampled_from([1, 1, 2, 3])))]
     if typ == "P":
-        tmax = max(tc, rtemp if rtemp is not None else tc)
+        tmax = max([tc] + (rtemp or []))
         if "H2O(g)" in names and ptot < 1.5 * psat_water(tmax):
             # a fixed-pressure water-vapour phase below the boiling pressure would boil the solution away
             names = [n for n in names if n != "H2O(g)"] or ["CO2(g)"]
@@ -206,14 +251,21 @@ def case_strategy(draw):
     gp["equilibrate"] = typ == "V" and draw(st.integers(0, 4)) == 0
     # initial composition: integer weights (some zero); the partial pressures are shares of the target total pressure
     w = [0 if draw(st.integers(0, 7)) == 0 else draw(st.integers(1, 20)) for _ in names]
-    if not any(w):
-        w[0] = 1
     fill = 1.0
-    if typ == "P" and draw(st.integers(0, 3)) == 0:
+    degas = typ == "P" and "CO2(g)" in names and draw(st.integers(0, 5)) == 0
+    if degas:
+        # an empty fixed-pressure phase over an acid carbonate solution: the phase forms only if the CO2 pressure reaches P
+        w = [0] * len(names)
+        sol["pH"] = draw(cg.uni(4.0, 6.5, 3))
+        sol["comps"] = [c for c in sol["comps"] if c[0] != "C(4)"] + [["C(4)", draw(cg.logu(3e-4, 0.05, 3)), ""]]
+        gp["pressure"] = ptot = draw(pressure(-2, -1))
+    elif not any(w):
+        w[0] = 1
+    if typ == "P" and not degas and draw(st.integers(0, 3)) == 0:
         fill = draw(cg.logu(0.003, 1.0, 3))          # less gas than the phase "wants": the phase may dissolve completely
     comps = []
     for n, wi in zip(names, w):
-        p0 = float("%.4g" % (ptot * fill * wi / sum(w)))
+        p0 = float("%.4g" % (ptot * fill * wi / max(sum(w), 1)))
         if n == "H2O(g)":
             p0 = min(p0, float("%.4g" % (0.9 * psat_water(gp["temp"]))))
         comps.append([n, p0])
@@ -313,8 +365,8 @@ def finish(parts):
         if parts["reaction"]:
             r = parts["reaction"]
             L.append("REACTION 1\n %s 1\n %s moles in %d steps" % (r["what"], cg.fmt(r["moles"]), r["steps"]))
-        if parts["rtemp"] is not None:
-            L.append("REACTION_TEMPERATURE 1\n %s" % cg.fmt(parts["rtemp"]))
+        if parts["rtemp"]:
+            L.append("REACTION_TEMPERATURE 1\n %s" % " ".join(cg.fmt(t) for t in parts["rtemp"]))
     L.append("SELECTED_OUTPUT 1\n -reset false\n -state true\n -gases " + " ".join(names))
     heads = ["gas_p", "gas_vm", "tk", "patm"]
     items = ["GAS_P", "GAS_VM", "TK", "PRESSURE"]
@@ -398,7 +450,12 @@ def check_case(case, ctx):
     classes = ["db=" + case["db"], "eos=" + ("PR" if pr else "ideal"), "kind=" + case["kind"], "ngas=%d" % len(names)]
     if case["custom"]:
         classes.append("custom_gases_" + ("pr" if pr else "ideal"))
-    tc = case["sol"]["temp"] if case.get("rtemp") is None else case["rtemp"]
+    rt = case.get("rtemp")
+    if isinstance(rt, (int, float)):
+        rt = [rt]
+    tc = rt[-1] if rt else case["sol"]["temp"]
+    if len(rt or []) > 1:
+        classes.append("temperature_sequence")
     classes.append("T=%s" % ("0-25" if tc <= 25 else "25-60" if tc <= 60 else "60-100" if tc <= 100 else "100-150" if tc <= 150 else "150-200"))
     info = {"nt": False, "classes": classes}
     G = [gases_db[n] for n in names]
@@ -406,8 +463,8 @@ def check_case(case, ctx):
         for r in react:
             check_equi(case, r, names, G, kij, pr, info, ctx)
     else:
-        for r in react:
-            check_gas_row(case, r, isoln[0], names, G, kij, pr, info, ctx)
+        for k, r in enumerate(react):
+            check_gas_row(case, r, isoln[0], names, G, kij, pr, info, ctx, k)
     return {"nontrivial": info["nt"], "classes": sorted(set(info["classes"]))}
 
 
@@ -481,7 +538,7 @@ def element_total(case, names, moles):
     return tot
 
 
-def check_gas_row(case, r, r0, names, G, kij, pr, info, ctx):
+def check_gas_row(case, r, r0, names, G, kij, pr, info, ctx, step=0):
     gp = case["gp"]
     N = len(names)
     n = [r["n%d" % i] for i in range(N)]
@@ -493,7 +550,10 @@ def check_gas_row(case, r, r0, names, G, kij, pr, info, ctx):
     exists = ntot >= 1e-12 and P > 0
     need_finite(r, () if exists else ("gas_vm",))     # GAS_VM of a phase without gas is V / 0 mol: no relation uses it
     Tk = r["tk"]
-    want_t = (case["rtemp"] if case["rtemp"] is not None else case["sol"]["temp"]) + 273.15
+    rt = case["rtemp"]
+    if isinstance(rt, (int, float)):
+        rt = [rt]                       # replays saved before temperature sequences were generated
+    want_t = (rt[min(step, len(rt) - 1)] if rt else case["sol"]["temp"]) + 273.15
     if rel(Tk, want_t) > 1e-12:
         raise Violation("temperature", "TK %r, input says %r" % (Tk, want_t))
     if any(x < 0 for x in n):
@@ -516,7 +576,7 @@ def check_gas_row(case, r, r0, names, G, kij, pr, info, ctx):
                         raise Violation("phi_clamp", "%s: PR_PHI %r outside 0.01..85" % (names[i], phi[i]))
                     s += 10.0 ** si[i] / (phi[i] if pr else 1.0)
             stat(ctx, "absent_sum", (s / gp["pressure"] - 1.0) / TOL_EXIST)
-            if s > gp["pressure"] * (1 + TOL_EXIST):
+            if s > gp["pressure"] * (1 + TOL_EXIST) + ABS_EXIST:
                 raise Violation("existence", "no gas phase, but sum of equilibrium partial pressures %r > fixed P %r" % (s, gp["pressure"]))
             info["classes"].append("absent_checked")
         return
@@ -554,7 +614,21 @@ def check_gas_row(case, r, r0, names, G, kij, pr, info, ctx):
         stat(ctx, "partial_sum", abs(math.fsum(pp[i] for i in live) - P) / P)
         if abs(math.fsum(pp[i] for i in live) - P) > TOL_PSUM_EXACT * P * len(live):
             raise Violation("partial_pressure_sum", "sum of PR_P %r != P %r" % (math.fsum(pp[i] for i in live), P))
+    # ---------------------------------------------------------------- equilibrium partial pressures (fugacity = 10^SI)
+    peq = {}
+    for i in live:
+        if si[i] <= -99:
+            if x[i] > 1e-12:
+                raise Violation("fugacity", "%s has %r mol in the gas but no saturation index" % (names[i], n[i]))
+            continue
+        if pr and not (0.0099 <= phi[i] <= 85.5):
+            raise Violation("phi_clamp", "%s: PR_PHI %r outside the documented 0.01..85 clamp" % (names[i], phi[i]))
+        peq[i] = 10.0 ** si[i] / phi[i]             # partial pressure whose fugacity phi_i p_i equals 10^SI_i
+    ssum = math.fsum(peq.values())
+    if not ssum > 0:
+        raise Violation("fugacity", "gas phase with %r mol but no component has a saturation index" % ntot)
     # ---------------------------------------------------------------- (2,3) equation of state and fugacity coefficients
+    stale = False
     if not pr:
         stat(ctx, "ideal", rel(P * V, ntot * eos.R_LATM * Tk) / (TOL_EOS + slack / ntot))
         if rel(P * V, ntot * eos.R_LATM * Tk) > TOL_EOS + slack / ntot:
@@ -581,17 +655,24 @@ def check_gas_row(case, r, r0, names, G, kij, pr, info, ctx):
         if not math.fsum(pp[i] for i in live) > 0:
             raise Violation("partial_pressure_sum", "gas phase with %r mol but all PR_P are zero" % ntot)
         info["classes"].append("region=" + reg)
-        for i in live:
-            if not (0.0099 <= phi[i] <= 85.5):
-                raise Violation("phi_clamp", "%s: PR_PHI %r outside the documented 0.01..85 clamp" % (names[i], phi[i]))
         if reg not in OUTSIDE:
             ctx.event("two_phase_skipped")
         else:
+            allowed = TOL_EOS + slack / ntot
             Pc = M.pressure(Vn)
-            stat(ctx, "pr_P", rel(Pc, P) / (TOL_EOS + slack / ntot))
-            if rel(Pc, P) > TOL_EOS + slack / ntot:
-                raise Violation("peng_robinson", "reported P=%r V=%r n=%r (V/n=%r) T=%r x=%r: the Peng-Robinson pressure of this state is %r (rel %.3g, region %s)" % (
-                    P, V, ntot, Vn, Tk, [x[i] for i in live], Pc, rel(Pc, P), reg))
+            stat(ctx, "pr_P", rel(Pc, P) / allowed)
+            if rel(Pc, P) > allowed:
+                # Known finding (replays/C19/known/stale-total-pressure*.json): the total pressure a fixed-volume phase
+                # reports is the EOS pressure at a *relaxed* molar volume (model.cpp calc_gas_pressures: V_m <- (V_m_old +
+                # V/n) / 2 each iteration) and can trail the reported moles.  Recognised by its signature - moles, volume,
+                # temperature, SI and phi are consistent with the EOS among themselves (sum of 10^SI/phi = P_EOS(V/n)), only
+                # the reported total differs - counted, and the clauses that use the reported total are skipped for this row.
+                if fixedP or case.get("assert_reported_pressure") or rel(ssum, Pc) > allowed:
+                    raise Violation("peng_robinson", "reported P=%r V=%r n=%r (V/n=%r) T=%r x=%r: the Peng-Robinson pressure of this state is %r (rel %.3g, region %s); sum of 10^SI/phi = %r" % (
+                        P, V, ntot, Vn, Tk, [x[i] for i in live], Pc, rel(Pc, P), reg, ssum))
+                stale = True
+                ctx.event("known_stale_total_pressure_rows")
+                info["classes"].append("stale_total_pressure")
             stat(ctx, "pr_vm", rel(Vm, Vn))
             if rel(Vm, Vn) > TOL_EOS:
                 raise Violation("molar_volume", "GAS_VM %r but volume / moles = %r" % (Vm, Vn))
@@ -604,9 +685,10 @@ def check_gas_row(case, r, r0, names, G, kij, pr, info, ctx):
             if not z2:
                 raise Violation("peng_robinson", "no admissible root of the cubic at the reported P=%r" % P)
             V2 = min((zz * M2.RT / P for zz in z2), key=lambda v: abs(v - Vn))
-            stat(ctx, "pr_v2", rel(V2, Vn) / (TOL_EOS + slack / ntot))
-            if rel(V2, Vn) > TOL_EOS + slack / ntot:
-                raise Violation("peng_robinson", "the cubic at the reported P=%r has its nearest root at %r L/mol, reported V/n = %r" % (P, V2, Vn))
+            if not stale:
+                stat(ctx, "pr_v2", rel(V2, Vn) / allowed)
+                if rel(V2, Vn) > allowed:
+                    raise Violation("peng_robinson", "the cubic at the reported P=%r has its nearest root at %r L/mol, reported V/n = %r" % (P, V2, Vn))
             lp = M2.ln_phi(P, V2)
             for k, i in enumerate(live):
                 if not (LNPHI_LO + 2e-2 < lp[k] < LNPHI_HI - 2e-2):
@@ -620,25 +702,17 @@ def check_gas_row(case, r, r0, names, G, kij, pr, info, ctx):
                 if abs(lp[k]) > 1e-3:
                     info["nt"] = True
                     info["classes"].append("pr_nonideal")
+                if lp[k] < -2.3:
+                    info["classes"].append("phi<0.1")
             info["classes"].append("pr_checked")
     # ---------------------------------------------------------------- (4) fugacity = 10^SI, (5) fixed-pressure sum
-    ssum = 0.0
     if pr and reg == "loop" and not case.get("assert_inside_spinodal"):
         # Peng-Robinson pressure of the reported (V/n, T, x) is <= 0: deep inside the two-phase region, where the engine
-        # substitutes another molar volume; phi and hence "fugacity" have no EOS meaning there (see known/ replay)
+        # substitutes another molar volume (gases.cpp calc_PR: "while (P <= 0) V_m *= 2"); the equilibrium partial
+        # pressures then sum to a multiple of the reported total (replays/C19/known/inside-spinodal-vm-doubled.json)
         ctx.event("inside_spinodal_fugacity_skipped")
         info["classes"].append("inside_spinodal")
         return
-    peq = {}
-    for i in live:
-        if si[i] <= -99:
-            if x[i] > 1e-12:
-                raise Violation("fugacity", "%s has %r mol in the gas but no saturation index" % (names[i], n[i]))
-            continue
-        peq[i] = 10.0 ** si[i] / phi[i]             # partial pressure whose fugacity phi_i p_i equals 10^SI_i
-    ssum = math.fsum(peq.values())
-    if not ssum > 0:
-        raise Violation("fugacity", "gas phase with %r mol but no component has a saturation index" % ntot)
     # phi_i x_i P = 10^SI_i for every i  <=>  (a) the shares x_i equal the shares of 10^SI_i / phi_i  and  (b) their sum is P.
     # (a) involves only quantities of one solver iterate; (b) compares them with the total pressure (see MOLE_SLACK_KGW)
     for i in peq:
@@ -646,11 +720,12 @@ def check_gas_row(case, r, r0, names, G, kij, pr, info, ctx):
         if abs(peq[i] / ssum - x[i]) > TOL_FUG:
             raise Violation("fugacity", "%s: mole fraction %r, but its share of the equilibrium partial pressures 10^SI/phi is %r (SI=%r phi=%r)" % (
                 names[i], x[i], peq[i] / ssum, si[i], phi[i]))
-    allowed = TOL_EXIST * P if fixedP else TOL_FUG * P + slack / ntot * P      # a fixed pressure is an input, not an iterate
-    stat(ctx, "fug_sum_P" if fixedP else "fug_sum_V", abs(ssum - P) / allowed)
-    if abs(ssum - P) > allowed:
-        raise Violation("existence" if fixedP else "fugacity", "sum over components of 10^SI/phi = %r but the total pressure is %r (moles %r, SI %r, phi %r)" % (
-            ssum, P, n, si, phi))
+    if not stale:
+        allowed = TOL_EXIST * P if fixedP else TOL_FUG * P + slack / ntot * P      # a fixed pressure is an input, not an iterate
+        stat(ctx, "fug_sum_P" if fixedP else "fug_sum_V", abs(ssum - P) / allowed)
+        if abs(ssum - P) > allowed:
+            raise Violation("existence" if fixedP else "fugacity", "sum over components of 10^SI/phi = %r but the total pressure is %r (moles %r, SI %r, phi %r)" % (
+                ssum, P, n, si, phi))
     if len(live) >= 2:
         info["nt"] = True
         info["classes"].append("multi_gas")
